@@ -1,7 +1,7 @@
 (* Props/C15.v -- Phase ordering and decimal I/O use the full two-part value.  Statements only. *)
 From Coq Require Import ZArith QArith Reals Floats Bool String List Sorting.Permutation Sorting.Sorted.
 From Flocq Require Import Core BinarySingleNaN PrimFloat.
-From PB Require Import Proofs.TwoSumExact Model.Phase2 Model.DecStr Proofs.Floor Proofs.PhaseCmp Proofs.PhaseCmpAll Proofs.DecStrProofs Model.PhaseOrd Proofs.PhaseArgmin Proofs.PhaseSort Proofs.PhaseRemainder Gen.GenPhase Proofs.PhaseGen.
+From PB Require Import Proofs.TwoSumExact Model.Phase2 Model.DecStr Proofs.Floor Proofs.PhaseCmp Proofs.PhaseCmpAll Proofs.DecStrProofs Model.PhaseOrd Proofs.PhaseArgmin Proofs.PhaseSort Proofs.PhaseRemainder Gen.GenPhase Proofs.PhaseGen Gen.GenPhaseOrd Proofs.PhaseOrdGen.
 Open Scope R_scope.
 
 (* comparison branch, bit-exact model: diff = (int1 - int2) + (frac1 - frac2) has exactly the sign of the exact difference
@@ -125,6 +125,18 @@ Proof. exact psort_ordered. Qed.
    expression GENERATED from pulsar/phase.py on this run *)
 Theorem C15_generated_diff : forall a b : ph, Phase2.phase_diff a b = gen_cmp_diff a b.
 Proof. exact phase_diff_generated. Qed.
+(* ... and so are the single-double cycle, argmin / argmax (which reduction, which difference, which pick), the two sort keys of argsort
+   with their lexsort priority, and min / max / ptp through the index functions *)
+Theorem C15_generated_arg : forall l : list ph, argmin l = gen_argmin l /\ argmax l = gen_argmax l.
+Proof. exact (fun l => conj (argmin_generated l) (argmax_generated l)). Qed.
+Theorem C15_generated_argsort : forall l : list ph,
+  argsort l =
+  map (fun k => snd k)
+      (fold_left (fun acc x => insert_stable x acc)
+                 (map (fun ip => (fst (gen_sort_keys (snd ip)), snd (gen_sort_keys (snd ip)), fst ip)) (combine (seq 0 (length l)) l)) nil).
+Proof. exact argsort_generated. Qed.
+Theorem C15_generated_reductions : forall l : list ph, pmin l = gen_pmin l /\ pmax l = gen_pmax l /\ ptp l = gen_ptp l.
+Proof. exact (fun l => conj (pmin_generated l) (conj (pmax_generated l) (ptp_generated l))). Qed.
 
 Print Assumptions C15_diff_sign.
 Print Assumptions C15_comparisons.
@@ -138,3 +150,4 @@ Print Assumptions C15_argsort_sorted_partial.
 Print Assumptions C15_cycle_order_exact.
 Print Assumptions C15_argsort_ordered.
 Print Assumptions C15_generated_diff.
+Print Assumptions C15_generated_argsort.
